@@ -401,7 +401,7 @@ def _shard(ctx, payload):
                     do([(a, k, b)], a)
     # two pre-emptions with one of them EARLY (the first lines of a call are where lazy initialisation is tested and
     # performed): a stops within its first lines x every point of b, and every point of a x b stops within its first lines
-    early = 10 if thorough else 4
+    early = 8 if thorough else 4
     cap_b, cap_a = (100000, 100000) if thorough else (120, 60)
     if not thorough and (n > 2 or name.startswith(('va', 'sv'))):
         cap_b, cap_a = 50, 25          # six ordered pairs / millisecond-long validations: keep the quick tier quick
@@ -450,7 +450,7 @@ def _shard(ctx, payload):
                 pairs.append((a, b))
     for a, b in pairs:
         total = (counts[a] + 1) * (counts[b] + 1)
-        budget = (200000 if thorough else 250) // len(pairs)
+        budget = (30000 if thorough else 250) // len(pairs)
         if total <= budget:
             combos = [(k1, k2) for k1 in range(counts[a] + 1) for k2 in range(counts[b] + 1)]
             ctx.label('exhaustive-double-preemptions')
